@@ -109,7 +109,15 @@ func (in *Instance) ProjectState() (M, []string) {
 		"threshold": -1, "pausedBM": false, "pausedSR": false, "maxBody": -1, "nextNonce": -777}
 	atts, used, pairs, msgrs, limits := []any{}, []any{}, []any{}, []any{}, []any{}
 	var junk []string
-	bad := func(k []byte, why string) { junk = append(junk, hex.EncodeToString(k)+":"+why) }
+	// `bad` reports a raw key that the documented layout does not explain; a key that merely disagrees with its
+	// value is projected from the value and reported as a note (it surfaces as a state divergence, not as junk)
+	bad := func(k []byte, why string) {
+		if why == "key/value mismatch" {
+			in.notes = append(in.notes, hex.EncodeToString(k)+":"+why)
+			return
+		}
+		junk = append(junk, hex.EncodeToString(k)+":"+why)
+	}
 	for _, kv := range in.RawDump() {
 		k, v := kv[0], kv[1]
 		ak := in.AbstractKey(k)
@@ -222,6 +230,23 @@ func canon(v any) string {
 		return fmt.Sprint(int(x))
 	}
 	return fmt.Sprint(v)
+}
+
+// fullState completes an abstract pre-state with zero balances for the symbols the projection always reports.
+func fullState(pre, init M) M {
+	out := M{}
+	for k, v := range pre {
+		out[k] = v
+	}
+	b := M{}
+	for k := range getm(init, "bal") {
+		b[k] = 0
+	}
+	for k, v := range getm(pre, "bal") {
+		b[k] = v
+	}
+	out["bal"] = b
+	return out
 }
 
 // sameState: the materialised state projects back onto the abstract state it was built from
